@@ -118,6 +118,7 @@ def populate(m, v):
     s.new_cells("c", "lambda x: x * k + g")
     s.new_cells("d", "lambda x: c(x) + 1")
     m.g = v + 1
+    m.nd = s.c.node(1)      # an element handle kept as a value: it denotes this model's cells wherever the model goes
     s.d(1)
     s.d(2)
 
@@ -340,6 +341,15 @@ def _run(case, out, root):
                 f = note_backup(target, op, i)
                 if f:
                     return f
+            if "nd" in m.refs:
+                try:
+                    owner = m.nd.obj.model
+                except Exception as exc:
+                    return out.fail("node-reference", "the element handle read back cannot be used: %r" % (exc,), i)
+                if owner is not m:
+                    return out.fail("node-crosses-models", "read_model(%r, name=%r): the element handle kept as a reference "
+                                    "denotes a cells of model %r, not of the model read" % (
+                                        os.path.basename(path), name, getattr(owner, "name", owner)), i)
             if m.name != target:
                 return out.fail("read-model-name", "read_model(name=%r) of a model saved as %r is called %r" % (
                     name, saved, m.name), i)
